@@ -345,7 +345,7 @@ class Gen:
         before = set(used)
         arm_used = set(before)
         self.used = used
-        self.poison = r.chance(0.06)
+        self.poison = r.chance(0.04)
         cond = self.bool_expr(r.range(0, 2), True)
         self.poison = False
         t = self.nodes(d + 1, arm_used, False)
@@ -375,7 +375,7 @@ def gen_defines(rng, tree, nested):
     n = rng.weighted([(0, 5), (1, 5), (2, 3), (3, 1)])
     out = []
     for _ in range(n):
-        k = rng.weighted([("declared", 10), ("k", 3), ("q", 2), ("label", 1), ("ghost", 1), ("hier", 3 if nested else 0),
+        k = rng.weighted([("declared", 16), ("k", 2), ("q", 1), ("label", 1), ("ghost", 1), ("hier", 3 if nested else 0),
                           ("last", 1 if nested else 0), ("odd", 1)])
         cands = sorted(x for x in declared if not x.startswith(".") and x not in LABELS)
         if k == "declared" and cands:
